@@ -14,7 +14,9 @@ def main():
         meta = json.load(open(os.path.join(VERIF, "seeded", d, "meta.json")))
         det = meta.get("detected_by") or {}
         how = det.get("how")
-        if not det:
+        if meta.get("obsolete"):
+            res = "no longer violates the property: " + meta["obsolete"]
+        elif not det:
             res = "not run"
         elif det.get("exit") == 0:
             res = "**MISSED**"
